@@ -337,6 +337,36 @@ func (c *Ctx) c04Loops(rule string, fns []*ssa.Function, floor int) {
 					}
 				}
 			}
+			// (b') walking an error chain: the loop variable is replaced by errors.Unwrap of itself and the loop is left
+			// when it becomes nil (error chains are finite: every wrapper holds an error built before it)
+			if kind == "" {
+				for _, in := range h.Instrs {
+					ph, isPhi := in.(*ssa.Phi)
+					if !isPhi {
+						continue
+					}
+					steps, others := 0, 0
+					for i, e := range ph.Edges {
+						if !l.Body[h.Preds[i]] {
+							continue
+						}
+						if call, isCall := e.(*ssa.Call); isCall && core.FuncIs(core.StaticCallee(call), "errors", "Unwrap") && call.Call.Args[0] == ssa.Value(ph) {
+							steps++
+						} else {
+							others++
+						}
+					}
+					leaves := false
+					for _, e := range nilEdges(ph, true) {
+						if !l.Body[e.to()] {
+							leaves = true
+						}
+					}
+					if steps > 0 && others == 0 && leaves {
+						kind, why = "chain-walk", "err = errors.Unwrap(err) until nil (finite error chain)"
+					}
+				}
+			}
 			// (c) input-driven
 			if kind == "" {
 				var backSrc []*ssa.BasicBlock
@@ -543,6 +573,30 @@ func (c *Ctx) c04NoFabricatedData(rule string) {
 				for _, u := range uses {
 					if _, isRet := u.(*ssa.Return); isRet {
 						continue // returned next to the error: the caller decides
+					}
+					if st, isSt := u.(*ssa.Store); isSt {
+						// parked in a local struct that is returned next to the error (msg.f, err = get()): not a use yet;
+						// what reads the local afterwards is judged where the struct's fields are consumed
+						if fa, isFA := st.Addr.(*ssa.FieldAddr); isFA {
+							if a, isAlloc := fa.X.(*ssa.Alloc); isAlloc && !a.Heap {
+								// reads of that field of the local are uses of the value
+								for _, ref := range core.Referrers(a) {
+									if fa2, ok := ref.(*ssa.FieldAddr); ok && fa2.Field == fa.Field {
+										for _, r2 := range core.Referrers(fa2) {
+											if ld, ok := r2.(*ssa.UnOp); ok && ld.Op == token.MUL {
+												for _, u2 := range core.Referrers(ld) {
+													if _, isRet := u2.(*ssa.Return); !isRet && !anyDominates(okEdges, u2.Block()) {
+														bad = true
+														R.Fail(rule, key+":value-used-before-error-test:"+instrDescr(u2), c.at(u2), "a decoded value is used only on the path where decoding succeeded", "the value returned by "+m+" (parked in a local struct field) is used by "+instrDescr(u2)+" without its error having been tested nil")
+													}
+												}
+											}
+										}
+									}
+								}
+								continue
+							}
+						}
 					}
 					if ph, isPhi := u.(*ssa.Phi); isPhi {
 						// a phi use happens on the edge from the predecessor
